@@ -616,7 +616,7 @@ func c19Work(c *engine.Ctx) {
 		}
 	}()
 	rw := c.SpaceByName("rw")
-	maxOps := c.Pick(3, 4)
+	maxOps := c.Pick(4, 5)
 	atoms := make([][]byte, len(c19Ops))
 	for i := range atoms {
 		atoms[i] = []byte{byte(i)}
@@ -624,8 +624,8 @@ func c19Work(c *engine.Ctx) {
 	al := engine.NewAlphabet(atoms)
 	states := map[string]struct{}{}
 	lvl := c.EnumSeq(al, 1, maxOps, func(in []byte, idx []int) {
-		if len(idx) == 4 {
-			// four-op histories: only from the 12-op core (one per kind + a second byte string)
+		if len(idx) == maxOps {
+			// the longest histories: only from the 12-op core (one per kind + a second byte string)
 			for _, i := range idx {
 				k := c19Ops[i]
 				if !(k.u == 0x7F || k.u == 0xFFFE || k.u == 0xFFFEFD || k.u == 0xFFFEFDFC || k.u == 0xFFFEFDFCFBFAF9F8 || k.i == -128 || k.i == -2 && k.kind == "i16" || k.i == -8388608 || k.i == math.MinInt32 || k.i == math.MinInt64 || k.b == "a" || k.b == "abc") {
@@ -654,7 +654,7 @@ func c19Work(c *engine.Ctx) {
 	_ = states
 	sk := c.SpaceByName("seek")
 	k := 0
-	for L := 0; L <= c.Pick(6, 7); L++ {
+	for L := 0; L <= c.Pick(6, 8); L++ {
 		for b := range c19Backends {
 			k++
 			if !c.Mine(k) {
@@ -667,7 +667,7 @@ func c19Work(c *engine.Ctx) {
 	}
 	bm := c.SpaceByName("bitmap")
 	bits := engine.NewAlphabet(engine.Atoms("0", "1"))
-	c.EnumSeq(bits, 0, c.Pick(17, 20), func(in []byte, idx []int) {
+	c.EnumSeq(bits, 0, c.Pick(17, 21), func(in []byte, idx []int) {
 		c.Exec(bm, in, map[string]string{"kind": "write"})
 		c.Count("exec", 1)
 		c.Count("transitions", int64(len(in)))
@@ -706,7 +706,7 @@ func c19Finish(c *engine.Ctx, cov map[string]interface{}) string {
 func init() {
 	register(&engine.Check{
 		ID: "C19", Level: "model_checking",
-		Rule:        "all write histories of ≤3 typed writes (27 op/value pairs: every width, signed and unsigned boundary values, byte strings of 0,1,3 bytes; 4-write histories over a 12-op core in thorough) × {big, little} endian: writer bytes vs encoding/binary, then read back on 15 backends/environment behaviours (memory, Bytes() reader, ReadSeeker n/-1/1-byte chunks/EOF-with-data, ReaderAt with nil or EOF on exact fit, plain reader -1/n/chunked/EOF-with-data, *os.File, mmap path, mmap file) with the data truncated at every byte; Seek from every position × every offset in [-L-1,L+1] × whence 0..3 and Read/ReadAt for every (pos,len) on L≤6 bytes vs bytes.Reader and the io contracts; every bit string ≤17 bits through BitmapWriter→BitmapReader and every buffer ≤2 bytes through BitmapReader",
+		Rule:        "all write histories of ≤3 (thorough 4) typed writes (27 op/value pairs: every width, signed and unsigned boundary values, byte strings of 0,1,3 bytes) plus all histories of 4 (thorough 5) writes over a 12-op core × {big, little} endian: writer bytes vs encoding/binary, then read back on 15 backends/environment behaviours (memory, Bytes() reader, ReadSeeker n/-1/1-byte chunks/EOF-with-data, ReaderAt with nil or EOF on exact fit, plain reader -1/n/chunked/EOF-with-data, *os.File, mmap path, mmap file) with the data truncated at every byte; Seek from every position × every offset in [-L-1,L+1] × whence 0..3 and Read/ReadAt for every (pos,len) on L≤6 bytes vs bytes.Reader and the io contracts; every bit string ≤17 bits through BitmapWriter→BitmapReader and every buffer ≤2 bytes through BitmapReader",
 		Assumptions: []string{"a reader may legally deliver io.EOF together with the last bytes, and a ReaderAt may return io.EOF or nil when a read ends exactly at the end", "Seek targets outside [0,Len] may be rejected (position unchanged) or accepted"},
 		Setup:       c19Setup, Work: c19Work, Finish: c19Finish,
 	})
